@@ -596,19 +596,37 @@ func checkC06(p *core.Program, r *core.Report) {
 		r.Errorf("modifiers.ReevaluateGroups not found")
 		return
 	}
-	var clearCall ssa.Instruction
-	var appendRemoved *ssa.Call
-	for _, cs := range core.Calls(rg, false) {
+	var clearEC, appendEC *core.EffCall
+	for _, ec := range core.EffectiveCalls(rg, 2) {
+		ec := ec
+		cs := ec.Inner
 		if o := core.CalleeObj(cs.Common()); o != nil && core.ObjName(o) == "flows.GroupList.Clear" {
-			clearCall = cs.Instr
+			clearEC = &ec
 		}
 		if b, ok := cs.Common().Value.(*ssa.Builtin); ok && b.Name() == "append" {
-			appendRemoved, _ = cs.Instr.(*ssa.Call)
+			fromAll := false
+			for v := range core.BackSlice(cs.Common().Args[1], nil) {
+				if c, ok := v.(*ssa.Call); ok {
+					if o := core.CalleeObj(&c.Call); o != nil && core.ObjName(o) == "flows.GroupList.All" {
+						fromAll = true
+					}
+				}
+			}
+			if fromAll {
+				appendEC = &ec
+			}
 		}
 	}
+	condsOf := func(ec *core.EffCall) []core.CondEdge {
+		out := core.ControllingConds(ec.Outer.Block())
+		if len(ec.Chain) > 0 {
+			out = append(out, core.ControllingConds(ec.Inner.Instr.Block())...)
+		}
+		return out
+	}
 	okClear := false
-	if clearCall != nil {
-		for _, ce := range core.ControllingConds(clearCall.Block()) {
+	if clearEC != nil {
+		for _, ce := range condsOf(clearEC) {
 			if bo, ok := ce.Cond.(*ssa.BinOp); ok {
 				s1, _ := core.ConstString(bo.X)
 				s2, _ := core.ConstString(bo.Y)
@@ -620,39 +638,47 @@ func checkC06(p *core.Program, r *core.Report) {
 	}
 	r.Check(okClear, "R2", "modifiers.ReevaluateGroups/clears-when-not-active", p.Pos(rg.Pos()), "Groups().Clear() under status != active", "static groups are not cleared (or are cleared unconditionally) for non-active contacts")
 	okCollect := false
-	if appendRemoved != nil && clearCall != nil {
-		// appended element comes from contact.Groups().All()[i], controlled by !UsesQuery() and status != active, and precedes Clear
-		fromAll, notQuery := false, false
-		for v := range core.BackSlice(appendRemoved.Call.Args[1], nil) {
-			if c, ok := v.(*ssa.Call); ok {
-				if o := core.CalleeObj(&c.Call); o != nil && core.ObjName(o) == "flows.GroupList.All" {
-					fromAll = true
-				}
-			}
-		}
-		for _, ce := range core.ControllingConds(appendRemoved.Block()) {
-			cond := ce.Cond
-			taken := ce.Taken
-			if c, ok := cond.(*ssa.Call); ok {
-				if o := core.CalleeObj(&c.Call); o != nil && o.Name() == "UsesQuery" && !taken {
+	if appendEC != nil && clearEC != nil {
+		appendRemoved, _ := appendEC.Inner.Instr.(*ssa.Call)
+		notQuery := false
+		for _, ce := range condsOf(appendEC) {
+			if c, ok := ce.Cond.(*ssa.Call); ok {
+				if o := core.CalleeObj(&c.Call); o != nil && o.Name() == "UsesQuery" && !ce.Taken {
 					notQuery = true
 				}
 			}
 		}
-		// returned `removed` flows into the event together with the query-group removals
+		// the extended `removed` flows into the event together with the query-group removals: directly, or as the result
+		// of the helper that extends it
 		toEvent := false
+		follow := pkgHelperFollow(core.FuncPkgPath(rg))
 		for _, cs := range core.Calls(rg, false) {
 			if o := core.CalleeObj(cs.Common()); o != nil && core.ObjName(o) == "flows/events.NewContactGroupsChanged" {
-				sl := core.BackSlice(cs.Common().Args[1], func(c *ssa.Call) bool {
-					b, ok := c.Call.Value.(*ssa.Builtin)
-					return ok && b.Name() == "append"
-				})
-				if sl[appendRemoved] {
+				sl := core.BackSlice(cs.Common().Args[1], follow)
+				if appendRemoved != nil && sl[appendRemoved] {
 					toEvent = true
+				}
+				if len(appendEC.Chain) > 0 {
+					if ov, ok := appendEC.Outer.(ssa.Value); ok && sl[ov] {
+						for _, ret := range core.Returns(appendEC.Chain[len(appendEC.Chain)-1]) {
+							for _, rv := range ret.Results {
+								if appendRemoved != nil && core.BackSlice(rv, follow)[appendRemoved] {
+									toEvent = true
+								}
+							}
+						}
+					}
 				}
 			}
 		}
-		okCollect = fromAll && notQuery && toEvent && !instrReaches(clearCall, appendRemoved)
+		// collected before the list is cleared (both in the same function, or the collecting helper is called first)
+		before := false
+		if clearEC.Inner.Instr.Parent() == appendEC.Inner.Instr.Parent() {
+			before = !instrReaches(clearEC.Inner.Instr, appendEC.Inner.Instr)
+		} else {
+			before = !instrReaches(clearEC.Outer, appendEC.Outer)
+		}
+		okCollect = notQuery && toEvent && before
 	}
 	r.Check(okCollect, "R2", "modifiers.ReevaluateGroups/reports-static-groups", p.Pos(rg.Pos()), "every non-query group of the contact is appended to `removed` (which reaches the event) before Clear()",
 		"static groups a non-active contact leaves are not all reported in contact_groups_changed")
